@@ -39,8 +39,12 @@ func StartSession(parent context.Context, h mocrelay.Handler, sendBuf int) *Sess
 const WaitBound = 20 * time.Second
 
 // Put hands a client message to the handler.
-func (s *Session) Put(m mocrelay.ClientMsg) bool {
-	t := time.NewTimer(WaitBound)
+func (s *Session) Put(m mocrelay.ClientMsg) bool { return s.PutWithin(m, WaitBound) }
+
+// PutWithin offers a client message for at most d (a handler need not take input while
+// its own output is blocked by the peer).
+func (s *Session) PutWithin(m mocrelay.ClientMsg, d time.Duration) bool {
+	t := time.NewTimer(d)
 	defer t.Stop()
 	select {
 	case s.Recv <- m:
